@@ -2,8 +2,10 @@
 """C16 — tokens: theorems about the decision logic (coq/Props/C16.v) under the MAC idealisation; a forger
 in the driver builds real tokens from abstract descriptions and presents them to the api verifiers and
 routes; accept/reject/user must equal the extracted model, and the property's own predicates are
-evaluated on the implementation's answers."""
-import os, sys, itertools
+evaluated on the implementation's answers. The premise of the wrong-kind theorems (pairwise distinct secrets)
+is observed after every way of configuring the server (package defaults, every shipped ini file, every subset
+of the three secrets set by a site) and the cross-kind matrix is repeated under the secrets then in force."""
+import os, sys, itertools, glob, shutil, tempfile
 sys.path.insert(0, os.path.join(os.path.dirname(os.path.abspath(__file__)), "..", "lib"))
 import vf
 
@@ -91,6 +93,288 @@ def to_model(op, params, toks, now):
         mt.append(t)
     return line(op, [now] + list(params), *mt)
 
+def judge(c, op, ps, ts, b, ln, report):
+    """the property's own predicates on one answer of the implementation; report(key, description, replay)"""
+    rep = {"cases": [ln], "got": " ".join(b)}
+    if b[0] != "0":
+        report("verifier-crash", "verifier crashed/hung on a forged token (status %s)" % b[0], rep)
+        return
+    t = ts[0]
+    c.nontrivial((op, tuple(ps), tuple(map(tuple, ts))))
+    if op in (1, 2, 3):
+        key = {1: 0, 2: 1, 3: 2}[op]
+        acc = b[1] == "1"
+        if acc and t[0] == 1:
+            if not (t[IDX["alg"]] in (0, 1, 2) and t[IDX["key"]] == key and t[IDX["intact"]] == 1 and t[IDX["nbf"]] == 0 and t[IDX["iat"]] == 0):
+                report("forged-token-accepted", "verifier %d accepted a token that was not HMAC-signed intact with its secret: %s" % (op, dict(zip(FIELDS, t))), rep)
+            elif (op != 1 or ps[0] == 1 or True) and not (t[IDX["exp_k"]] == 2 and t[IDX["exp_v"]] > 0) and not (op == 1 and ps[0] == 0 and t[IDX["exp_k"]] in (0, 3)):
+                report("expired-token-accepted", "verifier %d accepted an expired / expiry-less token: %s" % (op, dict(zip(FIELDS, t))), rep)
+            elif int(b[2]) != sub_of(t):
+                report("wrong-user", "verifier %d returned user %s for a token issued to %s" % (op, b[2], sub_of(t)), rep)
+            if op == 2 and not (t[IDX["typ_k"]] == 1 and t[IDX["typ_v"]] == 1):
+                report("wrong-kind-accepted", "refresh verifier accepted a token whose typ is not refresh", rep)
+            if op == 3 and not (t[IDX["ctx_k"]] == 1 and t[IDX["ctx_v"]] == ps[0]):
+                report("wrong-context-accepted", "e-mail verifier accepted a token of another context", rep)
+    if op == 4:
+        u = int(b[1])
+        if u != GUEST and not (properly_made(t, 0) and sub_of(t) == u):
+            report("request-runs-as-user", "a request ran as user %d with a token that is not a valid access token of that user: %s" % (u, dict(zip(FIELDS, t))), rep)
+    if op == 5 and b[1] == "1":
+        a, r = ts
+        ok = properly_made(a, 0) and properly_made(r, 1) and r[IDX["typ_k"]] == 1 and r[IDX["typ_v"]] == 1 and sub_of(a) == sub_of(r)
+        if not ok or int(b[2]) != sub_of(r):
+            report("refresh-accepted", "refresh succeeded (result user %s) without a matching valid access/refresh pair of one user" % b[2], rep)
+        elif abs((r[IDX["exp_v"]] - a[IDX["exp_v"]]) - (REFRESH_TS - ACCESS_TS)) > 2:
+            report("refresh-unpaired", "refresh succeeded for tokens that were not issued together", rep)
+    if op == 6 and b[1] == "1":
+        a, bt = ts
+        if not ((properly_made(bt, 0) and sub_of(bt) == int(b[2])) or (bt[0] == 0 and int(b[2]) == GUEST)):   # no token at all is the guest
+            report("token-info-leak", "token info returned for an invalid token", rep)
+    if op == 7 and b[1] == "1":
+        a, e = ts
+        path_user, route = ps
+        eff = sub_of(a) if (a[0] == 1 and properly_made(a, 0)) else GUEST
+        ok = (properly_made(e, 2) and e[IDX["ctx_k"]] == 1 and e[IDX["ctx_v"]] == route + 1 and sub_of(e) == path_user
+              and path_user != GUEST and (eff == path_user or (route == 1 and eff == SYSOP)))
+        if not ok:
+            report("email-applied-without-token", "e-mail change/id-email set for user %d passed the guard without a valid e-mail token of that context and user presented by the user (or an administrator where allowed)" % path_user, rep)
+        elif b[2] != "-1" and int(b[2]) != (e[IDX["eml_v"]] if e[IDX["eml_k"]] == 1 else 0):
+            report("email-not-from-token", "the applied e-mail is not the token's", rep)
+
+# ------------------------------------------------------------------ the secrets in force
+KINDS = {0: "access", 1: "refresh", 2: "e-mail"}
+VERIFIERS = {1: "VerifyJwt", 2: "VerifyRefreshJwt", 3: "VerifyEmailJwt", 4: "a login-required request", 6: "/token/info (body token)",
+             51: "/refresh (as refresh token)", 52: "/refresh (as access token)"}
+
+
+def path_bytes(p):
+    return " ".join(str(x) for x in p.encode())
+
+
+def shipped_inis():
+    """every ini file of the repository that a server can be started with"""
+    out = []
+    for p in sorted(glob.glob(os.path.join(vf.REPO, "**", "*.ini"), recursive=True)):
+        rel = os.path.relpath(p, vf.REPO)
+        if rel.startswith(("c-pttbbs", ".git")):
+            continue
+        out.append((rel, p))
+    return out
+
+
+def site_inis(rng, d):
+    """a site configuration for every subset of the three secrets that a site may set in [go-pttbbs:api]"""
+    out = []
+    names = ["JWT_SECRET", "REFRESH_JWT_SECRET", "EMAIL_JWT_SECRET"]
+    for mask in range(8):
+        sub = os.path.join(d, "site%d" % mask)
+        os.makedirs(sub)
+        p = os.path.join(sub, "config.ini")
+        vals = {n: "%s-site-%08x" % (n[0], rng.getrandbits(32)) for i, n in enumerate(names) if mask >> i & 1}
+        with open(p, "w") as f:
+            f.write("[go-pttbbs]\nHTTP_HOST = localhost:3456\n\n[go-pttbbs:api]\nJWT_ISSUER = go-pttbbs\n")
+            for n in names:
+                if n in vals:
+                    f.write("%s = %s\n" % (n, vals[n]))
+            f.write("\n[go-pttbbs:types]\nTIME_LOCATION = Asia/Taipei\n")
+        label = "site ini setting only {%s}" % ", ".join(n for n in names if n in vals)
+        out.append((label, p, vals))
+    return out
+
+
+def cross_matrix(with_env, thorough, rng):
+    """the cross-kind part of the forged-token matrix + every cross-use of tokens issued by the server itself"""
+    cs = []
+    bases = [access(), refresh_t(), email_t(ctx=1), email_t(ctx=2), access(key=3), refresh_t(off=3600), access(user=SYSOP), refresh_t(user=SYSOP)]
+    if thorough:
+        for b in (access(), refresh_t(), email_t(ctx=1)):
+            bases += variants(b, rng, 30)
+    for t in bases:
+        cs += [(1, [0], [t]), (1, [1], [t]), (2, [], [t]), (3, [1], [t]), (3, [2], [t]), (4, [], [t])]
+    for a, r in ((access(), refresh_t()), (refresh_t(), access()), (refresh_t(), refresh_t()), (access(), access()), (email_t(), refresh_t()),
+                 (access(), email_t(off=3600 + REFRESH_TS - ACCESS_TS)), (refresh_t(off=3600), refresh_t()), (access(), access(off=3600 + REFRESH_TS - ACCESS_TS, typ_k=1, typ_v=1))):
+        cs.append((5, [1], [a, r]))
+    for a, b in ((access(), access()), (access(), refresh_t(off=3600)), (access(), refresh_t()), (access(), email_t()), (refresh_t(), refresh_t()),
+                 (email_t(), email_t()), (access(), access(key=3)), (NONE, refresh_t(user=GUEST))):
+        cs.append((6, [], [a, b]))
+    if with_env:
+        for route in (0, 1):
+            good = email_t(ctx=route + 1)
+            for a, e in ((access(), good), (access(), email_t(ctx=2 - route)), (access(), access()), (access(), refresh_t()),
+                         (access(), tok(key=0, eml_k=1, eml_v=1, ctx_k=1, ctx_v=route + 1)), (access(), tok(key=1, typ_k=1, typ_v=1, eml_k=1, eml_v=1, ctx_k=1, ctx_v=route + 1)),
+                         (refresh_t(off=3600), good), (email_t(ctx=route + 1), good), (refresh_t(user=SYSOP, off=3600), good), (NONE, good)):
+                cs.append((7, [TEST1, route], [a, e]))
+    for kind, ctx in ((0, 0), (1, 0), (2, 1), (2, 2)):
+        for ver, vctx in ((1, 0), (2, 0), (3, 1), (3, 2), (4, 0), (6, 0), (51, 0), (52, 0)):
+            for user in (TEST1, SYSOP):
+                cs.append((9, [kind, user, 1, 1 if kind == 2 else 0, ctx], [[ver, vctx]]))
+    return cs
+
+
+def case_line(cs):
+    op, ps, ts = cs
+    if op == 9:
+        return "9|%s|%s" % (" ".join(map(str, ps)), " ".join(map(str, ts[0])))
+    return line(op, ps, *ts)
+
+
+def eff_caller(a, cls):
+    """effective caller of a request under the secrets in force (classes of the keys): model input for op 17 only"""
+    if a[0] == 0:
+        return GUEST
+    k = a[IDX["key"]]
+    if properly_made(a, k) and cls[k] == cls[0] and sub_of(a) is not None:
+        return sub_of(a)
+    return GUEST
+
+
+def model_line(cs, now, cls):
+    op, ps, ts = cs
+    g = " ".join(map(str, cls))
+    if op == 9:
+        return "19|%d %s|%s|%s" % (now, " ".join(map(str, ps)), " ".join(map(str, ts[0])), g)
+    mt = []
+    for t in ts:
+        t = list(t)
+        if t[IDX["exp_k"]] == 2:
+            t[IDX["exp_v"]] = now + t[IDX["exp_v"]]
+        mt.append(" ".join(map(str, t)))
+    if op == 7:
+        adm = 1 if eff_caller(ts[0], cls) == SYSOP else 0
+        ps = [ps[0], ps[1] + 1, adm, 1 if ps[1] == 1 else 0]
+    return "%d|%s|%s|%s" % (op + 10, " ".join(map(str, [now] + list(ps))), g, "|".join(mt))
+
+
+def judge_issued(c, ps, ver, b, ln, report):
+    """a token issued by the server's own Create*Token function is accepted only where its kind (and context) belongs"""
+    kind, user, cli, eml, ctx = ps
+    v, vctx = ver
+    rep = {"cases": [ln], "got": " ".join(b)}
+    if b[0] != "0":
+        report("verifier-crash", "issuing/verifying a token crashed (status %s)" % " ".join(b), rep)
+        return
+    c.nontrivial(("issued", tuple(ps), tuple(ver)))
+    what = "a token issued by the server as %s token of user %d%s" % (KINDS[kind], user, " (context %d)" % ctx if kind == 2 else "")
+    if v == 4:
+        accepted, who = int(b[1]) != GUEST, int(b[1])
+    else:
+        accepted, who = b[1] == "1", int(b[2]) if b[1] == "1" else None
+    allowed = {1: kind == 0, 2: kind == 1, 3: kind == 2 and ctx == vctx, 4: kind == 0, 6: kind == 0, 51: kind == 1, 52: kind == 0}[v]
+    if accepted and not allowed:
+        report("issued-wrong-kind-accepted", "%s was accepted by %s%s (as user %s)" % (what, VERIFIERS[v], " for context %d" % vctx if v == 3 else "", who), rep)
+    elif accepted and who != user:
+        report("wrong-user", "%s was accepted by %s as user %s" % (what, VERIFIERS[v], who), rep)
+
+
+def secrets_in_force(c, impl, model, rng, thorough):
+    """(a) after every way of configuring the server the three secrets in force are non-empty and pairwise different keys;
+    (b) the cross-kind matrix under those secrets; defaults restored afterwards (op 8 mode 0)."""
+    tmp = tempfile.mkdtemp(prefix="verifC16cfg")
+    try:
+        shipped = shipped_inis()
+        sites = site_inis(rng, tmp)
+        # ---- in the driver's BBS environment: api.InitConfig() after viper read the file (first step of initgin.InitAllConfig)
+        configs = [("package defaults (api/00-config.go)", 0, ""), ("api.InitConfig() with nothing configured", 3, "")]
+        configs += [(rel, 1, p) for rel, p in shipped] + [(label, 1, p) for label, p, _ in sites]
+        matrix = cross_matrix(True, thorough, rng)
+        lines, owner = [], []
+        for ci, (label, mode, p) in enumerate(configs):
+            lines.append("8|%d|%s" % (mode, path_bytes(p))); owner.append((ci, None))
+            for cs in matrix:
+                lines.append(case_line(cs)); owner.append((ci, cs))
+        lines.append("8|0|"); owner.append((len(configs), None))
+        configs.append(("package defaults restored", 0, ""))
+        io = vf.run_impl(impl, "C16", lines, deadline_ms=20000)
+        runs = [("api.InitConfig", configs, lines, owner, io)]
+        # ---- the whole start-up path, initgin.InitAllConfig(file) as main() calls it, one sacrificial process per file
+        matrix2 = cross_matrix(False, thorough, rng)
+        for k, (label, p) in enumerate([(rel, p) for rel, p in shipped] + [(label, p) for label, p, _ in sites]):
+            d = os.path.join(tmp, "start%d" % k)
+            os.makedirs(d)
+            q = os.path.join(d, os.path.basename(p))
+            # deployment paths of the conversion tables -> the repository's copies (the only adaptation; [go-pttbbs:api] untouched)
+            open(q, "w").write(open(p).read().replace("/etc/go-pttbbs/", os.path.join(vf.REPO, "types") + "/"))
+            os.symlink(os.path.join(vf.REPO, "types"), os.path.join(d, "types"))
+            ls = ["10|" + path_bytes(q)] + [case_line(cs) for cs in matrix2]
+            ow = [(0, None)] + [(0, cs) for cs in matrix2]
+            runs.append(("initgin.InitAllConfig", [(label, 2, q)], ls, ow, vf.run_impl(impl, "C16cfg", ls, deadline_ms=20000)))
+        # ---- predicates
+        mcases, mimpl, mlines = [], [], []
+        n_cfg = n_loaded = 0
+        hits = {}   # key -> [(is_shipped_file, description, replay, configuration)] : one violation per kind, every configuration listed
+
+        def found(key, desc, rep, name, p):
+            hits.setdefault(key, []).append((bool(p) and p.startswith(vf.REPO + os.sep), desc, rep, name))
+        for how, cfgs, ls, ow, io in runs:
+            c.count(len(ls), "secrets-in-force")
+            state = {}
+            for (ci, cs), ln, o in zip(ow, ls, io):
+                f = o.split()
+                label, mode, p = cfgs[ci]
+                name = "%s [%s]" % (label, how) if mode in (1, 2) else label
+                if cs is None:
+                    rep = {"cases": [ln], "got": o, "config": name, "config_file": p, "how": how}
+                    if f[0] != "0" or len(f) < 15:
+                        c.violation("config-load-crash", "configuring the server crashed (status %s): %s" % (f[0], name), rep)
+                        state[ci] = None
+                        continue
+                    loaded, ne, cls, lens = f[1] == "1", f[2:5], [int(x) for x in f[5:9]], f[9:12]
+                    state[ci] = (ln, cls, o)
+                    n_cfg += 1
+                    n_loaded += loaded
+                    c.nontrivial(("config", name, tuple(cls)))
+                    rep.update(loaded=loaded, secrets_nonempty=dict(zip(("access", "refresh", "email"), ne)), secret_lengths=lens,
+                               key_classes=dict(zip(("access", "refresh", "email", "foreign"), cls)),
+                               expected="three non-empty secrets that are pairwise different HMAC keys (key classes 0 1 2)")
+                    if ne != ["1", "1", "1"]:
+                        found("empty-secret", "a token secret in force is empty (access/refresh/e-mail non-empty: %s)" % " ".join(ne), rep, name, p)
+                    if cls[:3] != [0, 1, 2]:
+                        same = [("access", "refresh")] * (cls[1] == 0) + [("access", "e-mail")] * (cls[2] == 0) + [("refresh", "e-mail")] * (cls[2] == 1)
+                        found("secrets-not-distinct", "the %s secrets in force are the same HMAC key: the premise of the wrong-kind theorems (C16_wrong_kind_iff_distinct_secrets) fails for the running server"
+                              % " / ".join("%s = %s" % x for x in same), rep, name, p)
+                    if mode in (1, 2) and not loaded:
+                        c.cov.setdefault("notes", []).append("%s: the load reported an error; secrets judged as far as the load got" % name)
+                    continue
+                if state.get(ci) is None:
+                    continue
+                load_ln, cls, load_out = state[ci]
+                now, b = int(f[-1]), f[:-1]
+                op, ps, ts = cs
+
+                def report(key, desc, rep, name=name, load_ln=load_ln, load_out=load_out, cls=cls, p=p, how=how):
+                    found(key + "-under-configured-secrets", desc,
+                          dict(rep, cases=[load_ln] + rep["cases"], config=name, config_file=p, load_result=load_out,
+                               key_classes=dict(zip(("access", "refresh", "email", "foreign"), cls)), driver="C16cfg" if how.startswith("initgin") else "C16"), name, p)
+                if op == 9:
+                    judge_issued(c, ps, ts[0], b, ln, report)
+                else:
+                    judge(c, op, ps, ts, b, ln, report)
+                m = model_line(cs, now, cls)
+                mcases.append("%s ; %s" % (load_ln, ln)); mimpl.append(b); mlines.append(m)
+        for key, hs in hits.items():
+            names = []
+            for h in hs:
+                if h[3] not in names:
+                    names.append(h[3])
+            shipped_first = sorted(hs, key=lambda h: not h[0])[0]   # stable: the first shipped file if any, else the first configuration
+            _, desc, rep, name = shipped_first
+            c.violation(key, "after %s: %s (%d case(s) in %d configuration(s))" % (name, desc, len(hs), len(names)),
+                        dict(rep, all_configurations=names, replay_with="printf '%%s\\n' <cases...> | build/implrun %s   (op 8 = api.InitConfig() after viper read the file given as bytes; op 10 = initgin.InitAllConfig)" % rep.get("driver", "C16cfg" if rep.get("how", "").startswith("initgin") else "C16")))
+        if model:
+            mo = vf.run_model(model, mlines)
+            ci_, cm_ = [], []
+            for ln, b, m in zip(mcases, mimpl, mo):
+                m = m.split()
+                if ln.split(" ; ")[1].startswith("7|") and len(b) >= 3 and b[1] == "1" and b[2] == "-1":
+                    m = m[:2] + ["-1"]
+                ci_.append(" ".join(b)); cm_.append(" ".join(m))
+            vf.correspond(c, "verifiers/routes under the secrets in force vs Model/C16 (verify_*_c, present_issued)", mcases, ci_, cm_)
+        c.cov["distribution"]["configurations"] = n_cfg
+        c.cov["distribution"]["configurations-loaded"] = n_loaded
+        c.sample({"op": "secrets in force", "configurations": [x[0] for x in runs[0][1]], "start-up runs": len(runs) - 1, "matrix cases per configuration": len(matrix)})
+    finally:
+        shutil.rmtree(tmp, ignore_errors=True)
+
 
 def main():
     c = vf.Check("C16")
@@ -176,60 +460,20 @@ def main():
 
     # ---- the property's own predicates on the implementation's answers
     for (op, ps, ts), b, ln in zip(cases, canon, lines):
-        rep = {"cases": [ln], "got": " ".join(b)}
-        if b[0] != "0":
-            c.violation("verifier-crash", "verifier crashed/hung on a forged token (status %s)" % b[0], rep)
-            continue
-        t = ts[0]
-        c.nontrivial((op, tuple(ps), tuple(map(tuple, ts))))
-        if op in (1, 2, 3):
-            key = {1: 0, 2: 1, 3: 2}[op]
-            acc = b[1] == "1"
-            if acc and t[0] == 1:
-                if not (t[IDX["alg"]] in (0, 1, 2) and t[IDX["key"]] == key and t[IDX["intact"]] == 1 and t[IDX["nbf"]] == 0 and t[IDX["iat"]] == 0):
-                    c.violation("forged-token-accepted", "verifier %d accepted a token that was not HMAC-signed intact with its secret: %s" % (op, dict(zip(FIELDS, t))), rep)
-                elif (op != 1 or ps[0] == 1 or True) and not (t[IDX["exp_k"]] == 2 and t[IDX["exp_v"]] > 0) and not (op == 1 and ps[0] == 0 and t[IDX["exp_k"]] in (0, 3)):
-                    c.violation("expired-token-accepted", "verifier %d accepted an expired / expiry-less token: %s" % (op, dict(zip(FIELDS, t))), rep)
-                elif int(b[2]) != sub_of(t):
-                    c.violation("wrong-user", "verifier %d returned user %s for a token issued to %s" % (op, b[2], sub_of(t)), rep)
-                if op == 2 and not (t[IDX["typ_k"]] == 1 and t[IDX["typ_v"]] == 1):
-                    c.violation("wrong-kind-accepted", "refresh verifier accepted a token whose typ is not refresh", rep)
-                if op == 3 and not (t[IDX["ctx_k"]] == 1 and t[IDX["ctx_v"]] == ps[0]):
-                    c.violation("wrong-context-accepted", "e-mail verifier accepted a token of another context", rep)
-        if op == 4:
-            u = int(b[1])
-            if u != GUEST and not (properly_made(t, 0) and sub_of(t) == u):
-                c.violation("request-runs-as-user", "a request ran as user %d with a token that is not a valid access token of that user: %s" % (u, dict(zip(FIELDS, t))), rep)
-        if op == 5 and b[1] == "1":
-            a, r = ts
-            ok = properly_made(a, 0) and properly_made(r, 1) and r[IDX["typ_k"]] == 1 and r[IDX["typ_v"]] == 1 and sub_of(a) == sub_of(r)
-            if not ok or int(b[2]) != sub_of(r):
-                c.violation("refresh-accepted", "refresh succeeded (result user %s) without a matching valid access/refresh pair of one user" % b[2], rep)
-            elif abs((r[IDX["exp_v"]] - a[IDX["exp_v"]]) - (REFRESH_TS - ACCESS_TS)) > 2:
-                c.violation("refresh-unpaired", "refresh succeeded for tokens that were not issued together", rep)
-        if op == 6 and b[1] == "1":
-            a, bt = ts
-            if not ((properly_made(bt, 0) and sub_of(bt) == int(b[2])) or (bt[0] == 0 and int(b[2]) == GUEST)):   # no token at all is the guest
-                c.violation("token-info-leak", "token info returned for an invalid token", rep)
-        if op == 7 and b[1] == "1":
-            a, e = ts
-            path_user, route = ps
-            eff = sub_of(a) if (a[0] == 1 and properly_made(a, 0)) else GUEST
-            ok = (properly_made(e, 2) and e[IDX["ctx_k"]] == 1 and e[IDX["ctx_v"]] == route + 1 and sub_of(e) == path_user
-                  and path_user != GUEST and (eff == path_user or (route == 1 and eff == SYSOP)))
-            if not ok:
-                c.violation("email-applied-without-token", "e-mail change/id-email set for user %d passed the guard without a valid e-mail token of that context and user presented by the user (or an administrator where allowed)" % path_user, rep)
-            elif b[2] != "-1" and int(b[2]) != (e[IDX["eml_v"]] if e[IDX["eml_k"]] == 1 else 0):
-                c.violation("email-not-from-token", "the applied e-mail is not the token's", rep)
+        judge(c, op, ps, ts, b, ln, c.violation)
+    secrets_in_force(c, impl, model, rng, thorough)
     c.sample({"op": "VerifyJwt(check)", "token": dict(zip(FIELDS, cases[0][2][0])), "impl": io[0]})
     k = n_single + 5
     c.sample({"op": "/refresh", "params": cases[k][1], "access": dict(zip(FIELDS, cases[k][2][0])), "refresh": dict(zip(FIELDS, cases[k][2][1])), "impl": io[k]})
     c.cov["exhaustive_parts"] = ["every single-field mutation of a valid access / refresh / e-mail(2 contexts) token, each presented to all six verifiers/wrappers",
-                                 "refresh expiry distances -4..+4 s around the pairing window x user pairs x client-info combinations"]
+                                 "refresh expiry distances -4..+4 s around the pairing window x user pairs x client-info combinations",
+                                 "secrets in force: package defaults, api.InitConfig() with nothing configured, every *.ini of the repository and a site ini for every subset of the three secrets (8), each loaded by api.InitConfig() after viper and by initgin.InitAllConfig in a process of its own; "
+                                 "under each: all cross-uses of forged and server-issued tokens of the three kinds / two contexts at every verifier, wrapper and route"]
     c.finish(rule="base tokens x all single-field mutations (algorithm header, signing key, 4 kinds of alteration, each claim absent/mistyped/alternative, expiry offsets from -25h to +8d, nbf/iat) + PRNG(seed) double mutations, "
-                  "cross-presented to every verifier; refresh / token-info / e-mail consumers driven through an in-process gin router; distinct = distinct (operation, parameters, token descriptions)",
+                  "cross-presented to every verifier; refresh / token-info / e-mail consumers driven through an in-process gin router; the cross-kind matrix (forged + issued by Create*Token) repeated under the secrets in force after every configuration (shipped ini files, site inis with PRNG(seed) secrets); "
+                  "distinct = distinct (operation, parameters, token descriptions) + distinct (configuration, key classes)",
              assumptions=["MAC idealisation: a token verifies under a secret iff it was signed with it and not altered (HMAC unforgeability, golang-jwt's parser) — built into Model/C16.lib_accepts",
-                          "the three configured secrets are distinct (api/00-config.go defaults)", "expiry offsets keep 30 s away from the clock so that no case straddles a second boundary"])
+                          "the three secrets in force are pairwise different HMAC keys: OBSERVED by the check for the package defaults, every shipped ini file and every subset of secrets a site may set (predicate secrets-not-distinct; necessary and sufficient by C16_wrong_kind_iff_distinct_secrets); an assumption only for site secrets the check has not seen (an operator choosing equal values)", "expiry offsets keep 30 s away from the clock so that no case straddles a second boundary"])
 
 
 if __name__ == "__main__":
